@@ -133,7 +133,11 @@ def _capi_sign(t, impl, expected):
     """temporal_capi's I128Nanoseconds is sign-and-magnitude with the sign carried by the *high* word only: a negative
     instant whose magnitude is below 2^64 ns (every instant between 1385 and 1970) has high = -0 = 0 and reads back
     positive. Changing the encoding is an FFI ABI change."""
-    return t[0] == "w19_capi_instant" and -(2**64) < int(t[1]) < 0
+    if t[0] != "w19_capi_instant" or not (-(2**64) < int(t[1]) < 0):
+        return False
+    # exactly this failure: the same magnitude comes back with the sign lost (and the milliseconds of that value)
+    m = _re.match(r"^ok differ 0 (\d+) ms=(\d+) value=(\d+) \| 0 (\d+) ms=-\d+ value=-(\d+)$", impl)
+    return m is not None and m.group(1) == m.group(4) and m.group(3) == m.group(5) and int(m.group(3)) == -int(t[1])
 
 
 # ---------------------------------------------------------------- parsers (C12): quirks of the `ixdtf` 0.4.0 dependency
